@@ -121,9 +121,31 @@ func (h *Handler) delete(lease *Lease) {
 	delete(h.table, string(lease.ClientID))
 }
 
+// available returns true if ip can be handed out to lease: it must be a host address of the lease subnet, not a
+// reserved address, not leased to another client and not used by another mac according to the session.
+func (h *Handler) available(lease *Lease, ip netip.Addr) bool {
+	subnet := lease.subnet
+	if !ip.Is4() || !subnet.LAN.Contains(ip) || ip == subnet.LAN.Addr() || ip == subnet.broadcast ||
+		ip == subnet.DefaultGW || ip == subnet.DHCPServer || ip == h.net1.DefaultGW {
+		return false
+	}
+	for _, v := range h.table {
+		if v == lease || bytes.Equal(v.ClientID, lease.ClientID) {
+			continue
+		}
+		if v.State == StateAllocated && v.Addr.IP == ip {
+			return false
+		}
+	}
+	if host := h.session.FindIP(ip); host != nil && !bytes.Equal(host.MACEntry.MAC, lease.Addr.MAC) {
+		return false
+	}
+	return true
+}
+
 // allocIPOffer allocates a free IP to the lease entry
 func (h *Handler) allocIPOffer(lease *Lease, reqIP netip.Addr) error {
-	if reqIP.Is4() {
+	if reqIP.Is4() && h.available(lease, reqIP) {
 		if l := h.findByIP(reqIP); l == nil || l.State == StateFree || bytes.Equal(l.ClientID, lease.ClientID) {
 			if h.session.FindIP(reqIP) == nil {
 				lease.IPOffer = reqIP
@@ -137,10 +159,13 @@ func (h *Handler) allocIPOffer(lease *Lease, reqIP netip.Addr) error {
 
 	// search in remaining space to deliver sequential addresses
 	var ip netip.Addr
+	if !lease.subnet.nextIP.IsValid() { // first allocation in this subnet
+		lease.subnet.nextIP = lease.subnet.FirstIP
+	}
 	for lease.subnet.nextIP.Less(lease.subnet.broadcast) {
 		// for tmpIP.IsValid() {
 		if l := h.findByIP(lease.subnet.nextIP); l == nil || l.State == StateFree {
-			if h.session.FindIP(lease.subnet.nextIP) == nil {
+			if h.session.FindIP(lease.subnet.nextIP) == nil && h.available(lease, lease.subnet.nextIP) {
 				ip = lease.subnet.nextIP
 				lease.subnet.nextIP = lease.subnet.nextIP.Next()
 				break
@@ -157,7 +182,7 @@ func (h *Handler) allocIPOffer(lease *Lease, reqIP netip.Addr) error {
 	lease.subnet.nextIP = lease.subnet.FirstIP
 	for lease.subnet.nextIP.Less(lease.subnet.broadcast) {
 		if l := h.findByIP(lease.subnet.nextIP); l == nil || l.State == StateFree {
-			if h.session.FindIP(lease.subnet.nextIP) == nil {
+			if h.session.FindIP(lease.subnet.nextIP) == nil && h.available(lease, lease.subnet.nextIP) {
 				ip = lease.subnet.nextIP
 				lease.subnet.nextIP = lease.subnet.nextIP.Next()
 				break
